@@ -393,3 +393,152 @@ def tags_c08(h, obs):
             for rc in st[1].rcs:
                 t.add("rc:" + ("ok" if rc.ok else rc.ret))
     return t
+
+
+# ------------------------------------------------------------------------------------------ C03: proof gate
+
+ORIGIN_OK = {"c1": True, "c2": True, "c3": False}     # rule verdict for a well-formed proof (HappyRule / SimFabric rule of the world)
+
+
+def gen_c03(rng, n, tier):
+    """IBTP requests and receipts with every proof kind (ok / absent / hash mismatch / plain false) from chains whose rule
+    accepts, rejects with an error, or that were never registered; every such single-IBTP block is bracketed by state dumps;
+    the same IBTPs offered through the contract entry points HandleIBTPData / HandleIBTP by direct calls."""
+    import random as _r
+    from .gen_exec import ExecGen, SERVICES
+    hs = []
+    for _ in range(n):
+        r = _r.Random(rng.getrandbits(64))
+        g = ExecGen(r, focus="single", price=1)
+        tags = g.tags
+        tags.add("c03")
+        chains = SERVICES + ["c9:s1", "c1:s9"]
+        for _b in range(r.randint(4, 10)):
+            k = r.random()
+            if k < 0.3:
+                g.block()
+                continue
+            if k < 0.45:
+                f, t = r.sample(SERVICES, 2)
+                idx = g.next_req.get((f, t), 1)
+                g.ops.append("q dump")
+                g.ops.append(f"block bvm {r.choice(['u0', 'ca1', 'ca2', 'adm1'])} interchain HandleIBTPData ibtp:{f},{t},{idx},{r.choice(['req', 'ok', 'fail'])},0")
+                g.ops.append("q dump")
+                tags.add("entry:HandleIBTPData")
+                continue
+            # one IBTP with a chosen proof kind
+            if r.random() < 0.6:
+                tx = g.tx_req()
+            else:
+                tx = g.tx_rcpt()
+            ws = tx.split()
+            if r.random() < 0.25:
+                ws[2 if ws[5] == "req" else 3] = r.choice(["c9:s1", "c1:s9", "9999:c1:s1"])
+            ws[8] = r.choices(["ok", "none", "bad", "false"], [0.35, 0.2, 0.2, 0.25])[0]
+            g.ops.append("q dump")
+            g.ops.append("block " + " ".join(ws))
+            g.ops.append("q dump")
+            tags.add("proof:" + ws[8])
+            g.observe()
+        hs.append(History(g.ops, tags=tags))
+    return hs
+
+
+def mon_c03(h, obs):
+    hits = []
+    steps = mon_exec.parse_trace(h, obs)
+    for i, st in enumerate(steps):
+        if st[0] != "block" or not st[1].ok:
+            continue
+        b = st[1]
+        bracket = i > 0 and i + 1 < len(steps) and steps[i - 1][0] == "q" and steps[i - 1][1] == "dump" and steps[i + 1][0] == "q" and steps[i + 1][1] == "dump"
+        d0 = mon_exec.parse_dump(steps[i - 1][3]) if bracket else None
+        d1 = mon_exec.parse_dump(steps[i + 1][3]) if bracket else None
+        for j, (tx, rc) in enumerate(zip(b.txs, b.rcs)):
+            if tx.kind == "ibtp":
+                origin = (tx.frm if tx.typ == "req" else tx.to)
+                parts = origin.split(":")
+                chain = parts[0] if len(parts) == 2 else (parts[1] if len(parts) == 3 and parts[0] == "1356" else None)
+                verified = tx.proof == "ok" and ORIGIN_OK.get(chain, False) and tx.typ in ("req", "ok", "fail", "rb")
+                if rc.ok and not verified:
+                    hits.append(Hit(f"C03/unverified-ibtp-accepted/{tx.proof}", f"tx {j} of block {b.h}: proof={tx.proof} origin={origin} got a successful receipt", detail=b.op))
+                if not verified and j in {v[0] for vs in b.counter.values() for v in vs}:
+                    hits.append(Hit(f"C03/unverified-ibtp-listed/{tx.proof}", f"tx {j} of block {b.h} is listed in the delivery set", detail=b.op))
+                if not verified and len(b.txs) == 1 and d0 is not None and d1 is not None and not b.rawtimeout:
+                    ch = [k for k in sorted(set(d0) | set(d1)) if d0.get(k) != d1.get(k) and not k.startswith("bal/") and not k.startswith("nonce/")]
+                    if ch:
+                        hits.append(Hit(f"C03/unverified-ibtp-changed-state/{mon_exec.key_class(ch[0])}", f"block {b.h}: proof={tx.proof} origin={origin} changed {ch[:4]}", detail=b.op))
+            elif tx.kind == "bvm" and tx.contract == "interchain" and tx.method in ("HandleIBTPData", "HandleIBTP"):
+                if rc.ok:
+                    hits.append(Hit("C03/ibtp-processed-without-proof-check/" + tx.method, f"direct call by {tx.signer} succeeded", detail=b.op))
+                if len(b.txs) == 1 and d0 is not None and d1 is not None and not b.rawtimeout:
+                    ch = [k for k in sorted(set(d0) | set(d1)) if d0.get(k) != d1.get(k) and (k.startswith("interchain/") or k.startswith("txmgr/"))]
+                    if ch:
+                        hits.append(Hit("C03/ibtp-processed-without-proof-check/state", f"direct call by {tx.signer} changed {ch[:4]}", detail=b.op))
+    return hits
+
+
+def tags_c03(h, obs):
+    t = set()
+    for st in mon_exec.parse_trace(h, obs):
+        if st[0] == "block" and st[1].ok:
+            for tx, rc in zip(st[1].txs, st[1].rcs):
+                if tx.kind == "ibtp":
+                    t.add(f"ibtp:{tx.proof}:{'ok' if rc.ok else rc.ret}")
+    return t
+
+
+def gen_msig(rng, n, tier):
+    import random as _r
+    hs = []
+    names = list("abcdefghijkl")
+    # exhaustive small part: up to 4 validators, up to 3 signatures over {a, b, x(unregistered), junk}
+    import itertools
+    ops = []
+    for nv in range(0, 5):
+        vs = names[:nv]
+        for k in range(0, 4):
+            for sg in itertools.product(["a", "b", "z", "junk", "w:a"], repeat=k):
+                ops.append(f"msig {','.join(vs) or '[]'} {','.join(sg) or '-'}")
+    ops += ["msig nil a", "msig bad a", "msig nil -"]
+    hs.append(History(ops, tags={"msig", "exhaustive-small"}))
+    for _ in range(n):
+        r = _r.Random(rng.getrandbits(64))
+        ops = []
+        for _ in range(40):
+            nv = r.choice([0, 1, 2, 3, 4, 5, 6, 7, 8, 10, 12])
+            vs = [r.choice(names[:max(nv, 1)]) if r.random() < 0.15 else names[i] for i in range(nv)]
+            th = (max(len(vs), 1) - 1) // 3
+            k = r.choice([0, 1, th, th + 1, th + 1, th + 2, nv, nv + 2])
+            sg = []
+            for _ in range(k):
+                q = r.random()
+                if q < 0.6 and vs:
+                    sg.append(r.choice(vs))
+                elif q < 0.75:
+                    sg.append(r.choice(["x0", "x1", "y"]))
+                elif q < 0.85:
+                    sg.append(r.choice(["junk", "short"]))
+                else:
+                    sg.append("w:" + r.choice(names[:max(nv, 1)]))
+            ops.append(f"msig {','.join(vs) or '[]'} {','.join(sg) or '-'}")
+        hs.append(History(ops, tags={"msig"}))
+    return hs
+
+
+def mon_msig(h, obs):
+    hits = []
+    for op, o in zip(h.ops, obs):
+        ws = op.split()
+        if ws[0] != "msig" or ws[1] in ("nil", "bad"):
+            continue
+        vs = [] if ws[1] == "[]" else ws[1].split(",")
+        sg = [] if ws[2] == "-" else ws[2].split(",")
+        good = {s for s in sg if s in vs}          # junk / short / w:<k> / unregistered names never equal a validator name
+        need = (len(vs) - 1) // 3 if vs else 0
+        want_ok = len(good) > need
+        if (o == "ok") != want_ok:
+            hits.append(Hit("C03/multisign-threshold-wrong", f"{op}: {len(good)} distinct registered signers, threshold {need} -> {o}"))
+        if o == "false-nil":
+            hits.append(Hit("C03/multisign-false-without-error", op))
+    return hits
